@@ -202,8 +202,8 @@ package align
 //@   loop 9 invariant [scores] forall k int {aln[k]} :: 0 <= k && k < len(aln) ==> aln[k].(*featPair).score == nwOpt(a, alpha, rSeq, qSeq, aln[k].(*featPair).a.end, aln[k].(*featPair).b.end) - nwOpt(a, alpha, rSeq, qSeq, aln[k].(*featPair).a.start, aln[k].(*featPair).b.start)
 //@   loop 9 invariant [chain-done] forall k int, k2 int {succ(k, k2)} :: 0 <= k && k2 == k + 1 && k2 < len(aln) && (k2 < i || k > j) ==> proving(succ(k, k2)) && aln[k].(*featPair).a.end == aln[k2].(*featPair).a.start && aln[k].(*featPair).b.end == aln[k2].(*featPair).b.start
 //@   loop 9 invariant [chain-todo] forall k int, k2 int {succ(k, k2)} :: i <= k && k2 == k + 1 && k2 <= j ==> proving(succ(k, k2)) && aln[k2].(*featPair).a.end == aln[k].(*featPair).a.start && aln[k2].(*featPair).b.end == aln[k].(*featPair).b.start
-//@   loop 9 invariant [chain-joint] i > 0 && i <= j ==> proving(succ(i-1, i)) && proving(succ(j, j+1)) && aln[i-1].(*featPair).a.end == aln[j].(*featPair).a.start && aln[i-1].(*featPair).b.end == aln[j].(*featPair).b.start && aln[i].(*featPair).a.end == aln[j+1].(*featPair).a.start && aln[i].(*featPair).b.end == aln[j+1].(*featPair).b.start
-//@   loop 9 invariant [chain-met] i > 0 && i == j + 1 ==> proving(succ(i-1, i)) && proving(succ(j, j+1)) && aln[j].(*featPair).a.end == aln[i].(*featPair).a.start && aln[j].(*featPair).b.end == aln[i].(*featPair).b.start
+//@   loop 9 invariant [chain-joint] forall k int, k2 int {aln[k], aln[k2]} :: i > 0 && i <= j && 0 <= k && k < len(aln) && 0 <= k2 && k2 < len(aln) && ((k == i - 1 && k2 == j) || (k == i && k2 == j + 1)) ==> proving(succ(i-1, i)) && proving(succ(j, j+1)) && aln[k].(*featPair).a.end == aln[k2].(*featPair).a.start && aln[k].(*featPair).b.end == aln[k2].(*featPair).b.start
+//@   loop 9 invariant [chain-met] forall k int, k2 int {aln[k], aln[k2]} :: i > 0 && i == j + 1 && k == j && k2 == i && 0 <= k && k2 < len(aln) ==> proving(succ(i-1, i)) && proving(succ(j, j+1)) && aln[k].(*featPair).a.end == aln[k2].(*featPair).a.start && aln[k].(*featPair).b.end == aln[k2].(*featPair).b.start
 
 //@ func (NW).alignQLetters
 //@   property C09
@@ -276,8 +276,8 @@ package align
 //@   loop 9 invariant [scores] forall k int {aln[k]} :: 0 <= k && k < len(aln) ==> aln[k].(*featPair).score == nwOptQ(a, alpha, rSeq, qSeq, aln[k].(*featPair).a.end, aln[k].(*featPair).b.end) - nwOptQ(a, alpha, rSeq, qSeq, aln[k].(*featPair).a.start, aln[k].(*featPair).b.start)
 //@   loop 9 invariant [chain-done] forall k int, k2 int {succ(k, k2)} :: 0 <= k && k2 == k + 1 && k2 < len(aln) && (k2 < i || k > j) ==> proving(succ(k, k2)) && aln[k].(*featPair).a.end == aln[k2].(*featPair).a.start && aln[k].(*featPair).b.end == aln[k2].(*featPair).b.start
 //@   loop 9 invariant [chain-todo] forall k int, k2 int {succ(k, k2)} :: i <= k && k2 == k + 1 && k2 <= j ==> proving(succ(k, k2)) && aln[k2].(*featPair).a.end == aln[k].(*featPair).a.start && aln[k2].(*featPair).b.end == aln[k].(*featPair).b.start
-//@   loop 9 invariant [chain-joint] i > 0 && i <= j ==> proving(succ(i-1, i)) && proving(succ(j, j+1)) && aln[i-1].(*featPair).a.end == aln[j].(*featPair).a.start && aln[i-1].(*featPair).b.end == aln[j].(*featPair).b.start && aln[i].(*featPair).a.end == aln[j+1].(*featPair).a.start && aln[i].(*featPair).b.end == aln[j+1].(*featPair).b.start
-//@   loop 9 invariant [chain-met] i > 0 && i == j + 1 ==> proving(succ(i-1, i)) && proving(succ(j, j+1)) && aln[j].(*featPair).a.end == aln[i].(*featPair).a.start && aln[j].(*featPair).b.end == aln[i].(*featPair).b.start
+//@   loop 9 invariant [chain-joint] forall k int, k2 int {aln[k], aln[k2]} :: i > 0 && i <= j && 0 <= k && k < len(aln) && 0 <= k2 && k2 < len(aln) && ((k == i - 1 && k2 == j) || (k == i && k2 == j + 1)) ==> proving(succ(i-1, i)) && proving(succ(j, j+1)) && aln[k].(*featPair).a.end == aln[k2].(*featPair).a.start && aln[k].(*featPair).b.end == aln[k2].(*featPair).b.start
+//@   loop 9 invariant [chain-met] forall k int, k2 int {aln[k], aln[k2]} :: i > 0 && i == j + 1 && k == j && k2 == i && 0 <= k && k2 < len(aln) ==> proving(succ(i-1, i)) && proving(succ(j, j+1)) && aln[k].(*featPair).a.end == aln[k2].(*featPair).a.start && aln[k].(*featPair).b.end == aln[k2].(*featPair).b.start
 
 //@ func (SW).alignLetters
 //@   property C09
@@ -341,8 +341,8 @@ package align
 //@   loop 5 invariant [scores] forall k int {aln[k]} :: 0 <= k && k < len(aln) ==> aln[k].(*featPair).score == swOpt(a, alpha, rSeq, qSeq, aln[k].(*featPair).a.end, aln[k].(*featPair).b.end) - swOpt(a, alpha, rSeq, qSeq, aln[k].(*featPair).a.start, aln[k].(*featPair).b.start)
 //@   loop 5 invariant [chain-done] forall k int, k2 int {succ(k, k2)} :: 0 <= k && k2 == k + 1 && k2 < len(aln) && (k2 < i || k > j) ==> proving(succ(k, k2)) && aln[k].(*featPair).a.end == aln[k2].(*featPair).a.start && aln[k].(*featPair).b.end == aln[k2].(*featPair).b.start
 //@   loop 5 invariant [chain-todo] forall k int, k2 int {succ(k, k2)} :: i <= k && k2 == k + 1 && k2 <= j ==> proving(succ(k, k2)) && aln[k2].(*featPair).a.end == aln[k].(*featPair).a.start && aln[k2].(*featPair).b.end == aln[k].(*featPair).b.start
-//@   loop 5 invariant [chain-joint] i > 0 && i <= j ==> proving(succ(i-1, i)) && proving(succ(j, j+1)) && aln[i-1].(*featPair).a.end == aln[j].(*featPair).a.start && aln[i-1].(*featPair).b.end == aln[j].(*featPair).b.start && aln[i].(*featPair).a.end == aln[j+1].(*featPair).a.start && aln[i].(*featPair).b.end == aln[j+1].(*featPair).b.start
-//@   loop 5 invariant [chain-met] i > 0 && i == j + 1 ==> proving(succ(i-1, i)) && proving(succ(j, j+1)) && aln[j].(*featPair).a.end == aln[i].(*featPair).a.start && aln[j].(*featPair).b.end == aln[i].(*featPair).b.start
+//@   loop 5 invariant [chain-joint] forall k int, k2 int {aln[k], aln[k2]} :: i > 0 && i <= j && 0 <= k && k < len(aln) && 0 <= k2 && k2 < len(aln) && ((k == i - 1 && k2 == j) || (k == i && k2 == j + 1)) ==> proving(succ(i-1, i)) && proving(succ(j, j+1)) && aln[k].(*featPair).a.end == aln[k2].(*featPair).a.start && aln[k].(*featPair).b.end == aln[k2].(*featPair).b.start
+//@   loop 5 invariant [chain-met] forall k int, k2 int {aln[k], aln[k2]} :: i > 0 && i == j + 1 && k == j && k2 == i && 0 <= k && k2 < len(aln) ==> proving(succ(i-1, i)) && proving(succ(j, j+1)) && aln[k].(*featPair).a.end == aln[k2].(*featPair).a.start && aln[k].(*featPair).b.end == aln[k2].(*featPair).b.start
 //@   loop 2 invariant [bestv] maxS >= 0 && proving(cell(maxI, maxJ)) && maxS == swOpt(a, alpha, rSeq, qSeq, maxI, maxJ)
 //@   loop 3 invariant [bestv] maxS >= 0 && proving(cell(maxI, maxJ)) && maxS == swOpt(a, alpha, rSeq, qSeq, maxI, maxJ)
 //@   loop 2 invariant [best] (forall b int {lidx(alpha, b)} :: lidx(alpha, b) >= 0 ==> old(a[lidx(alpha, b)][0]) <= 0 && old(a[0][lidx(alpha, b)]) <= 0) ==> forall i2 int, j2 int {swOpt(a, alpha, rSeq, qSeq, i2, j2)} :: 0 <= i2 && i2 < r && 0 <= j2 && j2 < c && (i2 < i || j2 == 0) ==> proving(cell(i2, j2)) && swOpt(a, alpha, rSeq, qSeq, i2, j2) <= maxS
@@ -416,8 +416,8 @@ package align
 //@   loop 5 invariant [scores] forall k int {aln[k]} :: 0 <= k && k < len(aln) ==> aln[k].(*featPair).score == swOptQ(a, alpha, rSeq, qSeq, aln[k].(*featPair).a.end, aln[k].(*featPair).b.end) - swOptQ(a, alpha, rSeq, qSeq, aln[k].(*featPair).a.start, aln[k].(*featPair).b.start)
 //@   loop 5 invariant [chain-done] forall k int, k2 int {succ(k, k2)} :: 0 <= k && k2 == k + 1 && k2 < len(aln) && (k2 < i || k > j) ==> proving(succ(k, k2)) && aln[k].(*featPair).a.end == aln[k2].(*featPair).a.start && aln[k].(*featPair).b.end == aln[k2].(*featPair).b.start
 //@   loop 5 invariant [chain-todo] forall k int, k2 int {succ(k, k2)} :: i <= k && k2 == k + 1 && k2 <= j ==> proving(succ(k, k2)) && aln[k2].(*featPair).a.end == aln[k].(*featPair).a.start && aln[k2].(*featPair).b.end == aln[k].(*featPair).b.start
-//@   loop 5 invariant [chain-joint] i > 0 && i <= j ==> proving(succ(i-1, i)) && proving(succ(j, j+1)) && aln[i-1].(*featPair).a.end == aln[j].(*featPair).a.start && aln[i-1].(*featPair).b.end == aln[j].(*featPair).b.start && aln[i].(*featPair).a.end == aln[j+1].(*featPair).a.start && aln[i].(*featPair).b.end == aln[j+1].(*featPair).b.start
-//@   loop 5 invariant [chain-met] i > 0 && i == j + 1 ==> proving(succ(i-1, i)) && proving(succ(j, j+1)) && aln[j].(*featPair).a.end == aln[i].(*featPair).a.start && aln[j].(*featPair).b.end == aln[i].(*featPair).b.start
+//@   loop 5 invariant [chain-joint] forall k int, k2 int {aln[k], aln[k2]} :: i > 0 && i <= j && 0 <= k && k < len(aln) && 0 <= k2 && k2 < len(aln) && ((k == i - 1 && k2 == j) || (k == i && k2 == j + 1)) ==> proving(succ(i-1, i)) && proving(succ(j, j+1)) && aln[k].(*featPair).a.end == aln[k2].(*featPair).a.start && aln[k].(*featPair).b.end == aln[k2].(*featPair).b.start
+//@   loop 5 invariant [chain-met] forall k int, k2 int {aln[k], aln[k2]} :: i > 0 && i == j + 1 && k == j && k2 == i && 0 <= k && k2 < len(aln) ==> proving(succ(i-1, i)) && proving(succ(j, j+1)) && aln[k].(*featPair).a.end == aln[k2].(*featPair).a.start && aln[k].(*featPair).b.end == aln[k2].(*featPair).b.start
 //@   loop 2 invariant [bestv] maxS >= 0 && proving(cell(maxI, maxJ)) && maxS == swOptQ(a, alpha, rSeq, qSeq, maxI, maxJ)
 //@   loop 3 invariant [bestv] maxS >= 0 && proving(cell(maxI, maxJ)) && maxS == swOptQ(a, alpha, rSeq, qSeq, maxI, maxJ)
 //@   loop 2 invariant [best] (forall b int {lidx(alpha, b)} :: lidx(alpha, b) >= 0 ==> old(a[lidx(alpha, b)][0]) <= 0 && old(a[0][lidx(alpha, b)]) <= 0) ==> forall i2 int, j2 int {swOptQ(a, alpha, rSeq, qSeq, i2, j2)} :: 0 <= i2 && i2 < r && 0 <= j2 && j2 < c && (i2 < i || j2 == 0) ==> proving(cell(i2, j2)) && swOptQ(a, alpha, rSeq, qSeq, i2, j2) <= maxS
@@ -503,8 +503,8 @@ package align
 //@   loop 10 invariant [scores] forall k int {aln[k]} :: 0 <= k && k < len(aln) ==> aln[k].(*featPair).score == fitOpt(a, alpha, rSeq, qSeq, aln[k].(*featPair).a.end, aln[k].(*featPair).b.end) - fitOpt(a, alpha, rSeq, qSeq, aln[k].(*featPair).a.start, aln[k].(*featPair).b.start)
 //@   loop 10 invariant [chain-done] forall k int, k2 int {succ(k, k2)} :: 0 <= k && k2 == k + 1 && k2 < len(aln) && (k2 < i || k > j) ==> proving(succ(k, k2)) && aln[k].(*featPair).a.end == aln[k2].(*featPair).a.start && aln[k].(*featPair).b.end == aln[k2].(*featPair).b.start
 //@   loop 10 invariant [chain-todo] forall k int, k2 int {succ(k, k2)} :: i <= k && k2 == k + 1 && k2 <= j ==> proving(succ(k, k2)) && aln[k2].(*featPair).a.end == aln[k].(*featPair).a.start && aln[k2].(*featPair).b.end == aln[k].(*featPair).b.start
-//@   loop 10 invariant [chain-joint] i > 0 && i <= j ==> proving(succ(i-1, i)) && proving(succ(j, j+1)) && aln[i-1].(*featPair).a.end == aln[j].(*featPair).a.start && aln[i-1].(*featPair).b.end == aln[j].(*featPair).b.start && aln[i].(*featPair).a.end == aln[j+1].(*featPair).a.start && aln[i].(*featPair).b.end == aln[j+1].(*featPair).b.start
-//@   loop 10 invariant [chain-met] i > 0 && i == j + 1 ==> proving(succ(i-1, i)) && proving(succ(j, j+1)) && aln[j].(*featPair).a.end == aln[i].(*featPair).a.start && aln[j].(*featPair).b.end == aln[i].(*featPair).b.start
+//@   loop 10 invariant [chain-joint] forall k int, k2 int {aln[k], aln[k2]} :: i > 0 && i <= j && 0 <= k && k < len(aln) && 0 <= k2 && k2 < len(aln) && ((k == i - 1 && k2 == j) || (k == i && k2 == j + 1)) ==> proving(succ(i-1, i)) && proving(succ(j, j+1)) && aln[k].(*featPair).a.end == aln[k2].(*featPair).a.start && aln[k].(*featPair).b.end == aln[k2].(*featPair).b.start
+//@   loop 10 invariant [chain-met] forall k int, k2 int {aln[k], aln[k2]} :: i > 0 && i == j + 1 && k == j && k2 == i && 0 <= k && k2 < len(aln) ==> proving(succ(i-1, i)) && proving(succ(j, j+1)) && aln[k].(*featPair).a.end == aln[k2].(*featPair).a.start && aln[k].(*featPair).b.end == aln[k2].(*featPair).b.start
 //@   loop 9 invariant [here] cell(i, j)
 //@   loop 9 invariant [qend] (len(aln) == 0 ==> maxJ == c - 1) && (forall k int {aln[k]} :: k == 0 && k < len(aln) ==> aln[k].(*featPair).b.end == c - 1)
 //@   loop 10 invariant [ends] len(aln) > 0 && (i == 0 ==> aln[0].(*featPair).b.end == len(qSeq) && fitOpt(a, alpha, rSeq, qSeq, aln[len(aln)-1].(*featPair).a.start, aln[len(aln)-1].(*featPair).b.start) == 0) && (i > 0 ==> aln[len(aln)-1].(*featPair).b.end == len(qSeq) && fitOpt(a, alpha, rSeq, qSeq, aln[0].(*featPair).a.start, aln[0].(*featPair).b.start) == 0)
@@ -583,8 +583,8 @@ package align
 //@   loop 10 invariant [scores] forall k int {aln[k]} :: 0 <= k && k < len(aln) ==> aln[k].(*featPair).score == fitOptQ(a, alpha, rSeq, qSeq, aln[k].(*featPair).a.end, aln[k].(*featPair).b.end) - fitOptQ(a, alpha, rSeq, qSeq, aln[k].(*featPair).a.start, aln[k].(*featPair).b.start)
 //@   loop 10 invariant [chain-done] forall k int, k2 int {succ(k, k2)} :: 0 <= k && k2 == k + 1 && k2 < len(aln) && (k2 < i || k > j) ==> proving(succ(k, k2)) && aln[k].(*featPair).a.end == aln[k2].(*featPair).a.start && aln[k].(*featPair).b.end == aln[k2].(*featPair).b.start
 //@   loop 10 invariant [chain-todo] forall k int, k2 int {succ(k, k2)} :: i <= k && k2 == k + 1 && k2 <= j ==> proving(succ(k, k2)) && aln[k2].(*featPair).a.end == aln[k].(*featPair).a.start && aln[k2].(*featPair).b.end == aln[k].(*featPair).b.start
-//@   loop 10 invariant [chain-joint] i > 0 && i <= j ==> proving(succ(i-1, i)) && proving(succ(j, j+1)) && aln[i-1].(*featPair).a.end == aln[j].(*featPair).a.start && aln[i-1].(*featPair).b.end == aln[j].(*featPair).b.start && aln[i].(*featPair).a.end == aln[j+1].(*featPair).a.start && aln[i].(*featPair).b.end == aln[j+1].(*featPair).b.start
-//@   loop 10 invariant [chain-met] i > 0 && i == j + 1 ==> proving(succ(i-1, i)) && proving(succ(j, j+1)) && aln[j].(*featPair).a.end == aln[i].(*featPair).a.start && aln[j].(*featPair).b.end == aln[i].(*featPair).b.start
+//@   loop 10 invariant [chain-joint] forall k int, k2 int {aln[k], aln[k2]} :: i > 0 && i <= j && 0 <= k && k < len(aln) && 0 <= k2 && k2 < len(aln) && ((k == i - 1 && k2 == j) || (k == i && k2 == j + 1)) ==> proving(succ(i-1, i)) && proving(succ(j, j+1)) && aln[k].(*featPair).a.end == aln[k2].(*featPair).a.start && aln[k].(*featPair).b.end == aln[k2].(*featPair).b.start
+//@   loop 10 invariant [chain-met] forall k int, k2 int {aln[k], aln[k2]} :: i > 0 && i == j + 1 && k == j && k2 == i && 0 <= k && k2 < len(aln) ==> proving(succ(i-1, i)) && proving(succ(j, j+1)) && aln[k].(*featPair).a.end == aln[k2].(*featPair).a.start && aln[k].(*featPair).b.end == aln[k2].(*featPair).b.start
 //@   loop 9 invariant [here] cell(i, j)
 //@   loop 9 invariant [qend] (len(aln) == 0 ==> maxJ == c - 1) && (forall k int {aln[k]} :: k == 0 && k < len(aln) ==> aln[k].(*featPair).b.end == c - 1)
 //@   loop 10 invariant [ends] len(aln) > 0 && (i == 0 ==> aln[0].(*featPair).b.end == len(qSeq) && fitOptQ(a, alpha, rSeq, qSeq, aln[len(aln)-1].(*featPair).a.start, aln[len(aln)-1].(*featPair).b.start) == 0) && (i > 0 ==> aln[len(aln)-1].(*featPair).b.end == len(qSeq) && fitOptQ(a, alpha, rSeq, qSeq, aln[0].(*featPair).a.start, aln[0].(*featPair).b.start) == 0)
